@@ -1,4 +1,5 @@
 import Model.C11
+import Model.C02
 import Proofs.C11
 /-!
 # C11 — quorum reads return only quorum-backed results and release everything else
@@ -308,6 +309,30 @@ theorem do_delayed_extra (hr : drun d (dinit d pre) devs = some t) :
 
 end legacy
 
+/-! ### link to C02: a successful quorum read was answered by a C02 read quorum -/
+
+/-- Let `R : C02.RSetAll` be a replication set as `GetReplicationSetForOperation` produces it and `c`
+the configuration of the quorum-read machine for it (`PfC11.Corresponds`: instance `i` of the machine
+is `R.instances[i]`, zone numbers are an injective numbering `zid` of the zone names, tolerances are
+`R.maxErrors` / `R.maxUnavailableZones`). If `DoUntilQuorum` /
+`DoUntilQuorumWithoutSuccessfulContextCancellation` returns results `rs`, then
+
+* not zone-aware: the set of instances whose results are returned (`PfC11.answered R rs`) satisfies
+  C02's `readOkFlat`;
+* zone-aware: the set of zones all of whose instances are among the returned results
+  (`PfC11.answeredZones c R zid rs`) satisfies C02's `readOkZones`, every instance of such a zone
+  answered, and every returned result comes from such a zone.
+
+These are the premises of C02's quorum-intersection theorems (read side). -/
+theorem quorum_success_implies_readOk {R : C02.RSetAll} {zid : String → Nat} (hc : PfC11.Corresponds c R zid)
+    (hr : run c (init c order pre) evs = some s) {rs : List Nat} (hm : s.main = .retOk rs) :
+    (c.zoneMode = false → C02.readOkFlat (PfC11.answered R rs) R) ∧
+    (c.zoneMode = true →
+      C02.readOkZones (PfC11.answeredZones c R zid rs) R ∧
+      (∀ z, z ∈ PfC11.answeredZones c R zid rs → ∀ x, x ∈ R.instances → x.zone = z → x ∈ PfC11.answered R rs) ∧
+      (∀ b, b ∈ PfC11.answered R rs → b.zone ∈ PfC11.answeredZones c R zid rs)) :=
+  ⟨fun hz => PfC11.link_flat hc hr hz hm, fun hz => PfC11.link_zones hc hr hz hm⟩
+
 /-! ### non-vacuity: concrete schedules meeting the hypotheses -/
 
 /-- 3 instances in zones 0,1,0, one zone may be unavailable; instance 2 and 1 succeed, the call
@@ -330,5 +355,15 @@ def exCfg2 : Cfg :=
 example : (run exCfg2 (init exCfg2 [2, 0, 1] false) [.begin 0, .begin 1, .finish 0 .ok, .recv, .finish 1 .err, .recv, .begin 2,
       .finish 2 .err, .recv]).map (fun s => (s.main, s.cleaned, s.started, failed exCfg2 s)) =
     some (.retErr (.inst 2), [0], [0, 1, 2], true) := by decide +kernel
+
+
+/-- the zone-aware example configuration `exCfg` is the machine configuration of this replication set. -/
+def exR : C02.RSetAll :=
+  { instances := [{ id := "a", zone := "z0" }, { id := "b", zone := "z1" }, { id := "c", zone := "z0" }]
+    maxErrors := 0, maxUnavailableZones := 1, zoneAware := true }
+
+def exZid (z : String) : Nat := if z = "z0" then 0 else 1
+
+example : PfC11.Corresponds exCfg exR exZid := ⟨by decide, by decide, by decide, rfl, rfl⟩
 
 end PC11
